@@ -156,10 +156,17 @@ static unsigned wait_quiescent(void)
     unsigned spins = 0;
 
     for (;;) {
-        unsigned bad = 0;
+        unsigned bad = 0, inflight = 0;
+        /* snapshot first: the tasks whose call has not returned yet; only then audit the waiter lists.  (A call that
+         * was still running at the snapshot is in the set and cannot be on a list unless it blocked, which releases
+         * nobody; a call that had returned has finished all its releases, so the tasks it took off the lists are seen
+         * as neither enqueued nor returned until they do return.) */
         MACHINE_FENCE;
         for (int i = 0; i < ntasks; i++)
-            if (T[i]->cmd_seq != T[i]->done_seq && !enqueued(i)) bad |= 1u << i;
+            if (T[i]->cmd_seq != T[i]->done_seq) inflight |= 1u << i;
+        MACHINE_FENCE;
+        for (int i = 0; i < ntasks; i++)
+            if ((inflight & (1u << i)) && !enqueued(i)) bad |= 1u << i;
         if (!bad) return 0;
         qthread_yield();
         ++spins;
